@@ -135,7 +135,7 @@ def apply(F, S):
         env = a.base_env()
         x, cur = ("arg", "a0"), None
         post = r["heap"]
-        cands = [k for k, v in post.items() if any(s_ == ("pre", k) for s_ in subterms(v)) and k != "self.is_new"]
+        cands = [k for k, v in post.items() if any(s_ == ("pre", k) for s_ in subterms(v)) and invariants.path_type(F, "ExponentialMovingAverage", k) == "f64"]
         ok = False
         why = "no recursive state field found"
         for k in cands:
